@@ -45,8 +45,11 @@ def _run_events(args):
                       'nsmap': [{'p': common.cps(p), 'u': common.cps(u)} for p, u in (nsmap or {}).items()],
                       'scope': scope, 'target': tgt, 'css': css, 'text': common.cps(css)}
                 try:
-                    r = sv.select(css, tnode, namespaces=nsmap)
+                    r = common.guard(lambda: sv.select(css, tnode, namespaces=nsmap), 30)      # a call that never returns is an outcome, not a hung check
                     ev['res'] = [idmap.get(id(t), -1) for t in r]
+                except common.CallTimeout:
+                    ev['res'] = [-3]
+                    ev['exc'] = 'no return within 30 s'
                 except Exception as e:
                     ev['res'] = [-2]
                     ev['exc'] = '%s: %s' % (type(e).__name__, str(e).split('\n')[0])
